@@ -111,6 +111,15 @@ class VPat(V):
         return 'VPat(%s,%s,%r)' % (self.iseof, self.isto, self.payload)
 
 
+class VHidden(V):
+    """`count` list elements the function under contract never touches (between index 0 and the tail)."""
+    def __init__(self, count):
+        self.count = count
+
+    def __repr__(self):
+        return 'VHidden(%s)' % self.count
+
+
 class VFunc(V):
     """kind: 'method' (fi, self), 'closure' (node, env, module, cls), 'builtin' (name),
     'extern' (qualified name), 'bound_builtin' (name, self value)"""
